@@ -204,7 +204,14 @@ func init() {
 	pools["uintptr"] = poolT[uintptr]("uintptr")
 	pools["float32"] = poolT[float32]("float32")
 	pools["float64"] = poolT[float64]("float64")
+	pools["NInt16"] = poolT[NInt16]("NInt16")
+	pools["NUint8"] = poolT[NUint8]("NUint8")
+	pools["NFloat32"] = poolT[NFloat32]("NFloat32")
 }
+
+// SomeNamed are three named element types (signed, unsigned, floating) that the
+// checks over "every element type" add to the 13 built-in ones.
+var SomeNamed = []string{"NInt16", "NUint8", "NFloat32"}
 
 // Three distinct function-local types that are all called "Sample" (their
 // reflect.Type.String() is identical) with different underlying types.
@@ -252,6 +259,12 @@ func AnyRootWindow(name string, C, K, a, b, partial, fix int) (root, w AnyBuf) {
 	for p := 0; p < C*K; p++ {
 		fillVia.Set(p, IV(Sentinel(p)))
 	}
+	defer func() {
+		// other windows of the same parent are cut while the window under test is alive
+		_ = root.Slice(0, K/2)
+		_ = root.Slice(K/2, K)
+		_ = root.Slice(K, K)
+	}()
 	if n := C*(b-a) + partial; fix >= 4 && n >= 2 {
 		n1 := fix - 3
 		if n1 > n-1 {
